@@ -23,7 +23,7 @@ RULE = ("case = clients (type, id, key) + ordered operations (kind, accepted arg
         "modes: all 16 + 256 sequences of length <= 2, Hypothesis lists of 3..20 operations, two clients run under asyncio.gather. "
         "Non-trivial = history with >= 2 operations on a connection whose consecutive logins got different session ids; "
         "distinct by (kinds, clients, sessions, delays)."
-        ' Also: all ordered pairs of operation kinds with generated arguments, clocks within +-2 h of a UTC-offset change of the host zone, host zones other than UTC, and a device that takes 6 s .. 25 h to answer one step (login or any command) of an operation, under a harness-owned event-loop clock: the slow operation may wait or give up, but every frame it and the following operations write must belong to a whole exchange bound to its own login. many-objects: 66..130 (thorough 520) API objects with distinct ids and keys alive at once, one operation each, then the first ones again.')
+        ' Also: all ordered pairs of operation kinds with generated arguments, clocks within +-2 h of a UTC-offset change of the host zone, host zones other than UTC, and a device that takes 6 s .. 25 h to answer one step (login or any command) of an operation, under a harness-owned event-loop clock: the slow operation may wait or give up, but every frame it and the following operations write must belong to a whole exchange bound to its own login. API objects are in a quarter of the cases instances of a trivial application subclass; half of the interleaved cases run one operation in the parent task before the two instances are gathered (context inheritance). many-objects: 66..130 (thorough 520) API objects with distinct ids and keys alive at once, one operation each, then the first ones again.')
 ASSUMPTIONS = [
     "the harness owns the schedule: reply delays are counts of event-loop turns; the only interleavings explored are those a single-threaded asyncio client can observe",
     "two operations are never run concurrently on the same API object (unsupported by the stream protocol)",
@@ -85,7 +85,7 @@ class Clock:
 async def run_history(rep, case, sub):
     dev = await env.device()
     cfgs = case["clients"]
-    clients = [ops.Client(dev, c["type"], c["device_id"], f"{c['key']:02x}") for c in cfgs]
+    clients = [ops.Client(dev, c["type"], c["device_id"], f"{c['key']:02x}", subclass=bool(c.get("subclass"))) for c in cfgs]
     for cl in clients:
         await cl.connect()
     results = []   # (client index, op, frames, times, t_call, status, res)
@@ -126,6 +126,11 @@ async def run_history(rep, case, sub):
                 async def runner(ci, lst):
                     for idx, op in lst:
                         await one(ci, op, idx)
+                if case.get("warmup"):
+                    # one operation runs in the parent task first: the tasks gathered below inherit its context
+                    ci0 = sorted(per)[0]
+                    idx0, op0 = per[ci0].pop(0)
+                    await one(ci0, op0, idx0)
                 await asyncio.gather(*[runner(ci, lst) for ci, lst in per.items()])
             else:
                 for idx, op in enumerate(case["ops"]):
@@ -235,8 +240,8 @@ def _resolvable(a):
 
 
 def client_cfgs(types):
-    return st.tuples(*[st.tuples(gen.device_ids, gen.keys_int) for _ in types]).map(
-        lambda t: [{"type": ty, "device_id": d, "key": k} for ty, (d, k) in zip(types, t)])
+    return st.tuples(*[st.tuples(gen.device_ids, gen.keys_int, st.sampled_from([False, False, False, True])) for _ in types]).map(
+        lambda t: [dict({"type": ty, "device_id": d, "key": k}, **({"subclass": True} if sc else {})) for ty, (d, k, sc) in zip(types, t)])
 
 
 HOST_ZONES = st.sampled_from(["UTC", "UTC", "Asia/Jerusalem", "America/New_York", "Asia/Kathmandu", "Pacific/Kiritimati"])
@@ -298,6 +303,29 @@ def cases_slow_device(tier):
                                 "slow": {"op": 0, "step": step, "secs": secs}, "ops": oplist})
         return out
     return gen_cases
+
+
+def cases_interleaved_scenarios():
+    """Two type-2 instances: A's thermostat control (3-4 frames) is stretched by reply delays while B logs in somewhere inside
+    it - every position, with and without an earlier operation in the parent task."""
+    out = []
+    n = 0
+    cfg = [{"type": 2, "device_id": "0d0e0f", "key": 0x2A}, {"type": 2, "device_id": "a0b1c2", "key": 0x3B}]
+    for ka in ("breeze_command_swing", "breeze_command", "breeze_status", "breeze_swing_only"):
+        for kb in ("stop", "get_shutter_state", "get_breeze_state", "breeze_command"):
+            for da in ([0, 4, 4, 4], [2, 0, 6, 0], [0, 0, 0, 6], [5, 5, 0, 0], [1, 3, 5, 2]):
+                for db in ([1, 0, 0, 0], [3, 1, 0, 0], [6, 0, 2, 0]):
+                    for warm in (False, True):
+                        n += 1
+                        oplist = [{"client": 0, "kind": "get_breeze_state", "args": CANON_ARGS["get_breeze_state"], "gap": 1, "salt": 3,
+                                   "session": bytes([0xE0, n % 256, n >> 8, 1]).hex()}] if warm else []
+                        oplist += [{"client": 0, "kind": ka, "args": CANON_ARGS[ka], "gap": 1, "salt": 5, "delays": da,
+                                    "session": bytes([0xE1, n % 256, n >> 8, 2]).hex()},
+                                   {"client": 1, "kind": kb, "args": CANON_ARGS[kb], "gap": 0, "salt": 7, "delays": db,
+                                    "session": bytes([0xE2, n % 256, n >> 8, 3]).hex()}]
+                        out.append(dict({"clients": cfg, "t0": 1_700_000_000 + n * 50, "zone": "UTC", "ops": oplist, "concurrent": True},
+                                        **({"warmup": True} if warm else {})))
+    return out
 
 
 def cases_many_objects(tier):
@@ -381,8 +409,9 @@ def strat_interleaved():
         kinds_of = {1: ops.KINDS1, 2: ops.KINDS2}
         a = st.lists(op_strategy(kinds_of[types[0]], lambda k: 0), min_size=1, max_size=4)
         b = st.lists(op_strategy(kinds_of[types[1]], lambda k: 1), min_size=1, max_size=4)
-        return st.builds(lambda cfg, la, lb, t0, z: {"clients": cfg, "t0": t0, "ops": la + lb, "concurrent": True, "zone": z},
-                         client_cfgs(list(types)), a, b, st.integers(300_000, 2 ** 32 - 400_000), HOST_ZONES)
+        return st.builds(lambda cfg, la, lb, t0, z, warm: dict({"clients": cfg, "t0": t0, "ops": la + lb, "concurrent": True, "zone": z},
+                                                                **({"warmup": True} if warm else {})),
+                         client_cfgs(list(types)), a, b, st.integers(300_000, 2 ** 32 - 400_000), HOST_ZONES, st.booleans())
     return st.sampled_from([(1, 1), (2, 2), (1, 2)]).flatmap(for_types)
 
 
@@ -396,6 +425,7 @@ def subchecks(tier):
         Sub("device-hangs-up", lambda rep, case: net.run(run_with_hangup(rep, case, "device-hangs-up")), strategy=strat_hangup,
             n=20_000 if big else 400, shards=16 if big else 2),
         Sub("sequences", make_body("sequences"), strategy=strat_seq, n=60_000 if big else 800, shards=16 if big else 4),
+        Sub("interleaved-scenarios", make_body("interleaved-scenarios"), cases=cases_interleaved_scenarios, shards=4, exhaustive=True),
         Sub("many-objects", make_body("many-objects"), cases=cases_many_objects(tier), shards=3, exhaustive=False),
         Sub("slow-device", make_body("slow-device"), cases=cases_slow_device(tier), shards=16 if big else 4, exhaustive=True),
         Sub("interleaved", make_body("interleaved"), strategy=strat_interleaved, n=60_000 if big else 1000, shards=16 if big else 4),
